@@ -394,8 +394,8 @@ class DnsRecordRrsig(ParsableBase):  # pylint: disable=too-many-instance-attribu
         validator=attr.validators.instance_of(six.integer_types),
         metadata={'human_readable_name': 'Original TTL'}
     )
-    signature_expiration = attr.ib(validator=attr.validators.instance_of(datetime.datetime))
-    signature_inception = attr.ib(validator=attr.validators.instance_of(datetime.datetime))
+    signature_expiration = attr.ib(validator=attr.validators.optional(attr.validators.instance_of(datetime.datetime)))
+    signature_inception = attr.ib(validator=attr.validators.optional(attr.validators.instance_of(datetime.datetime)))
     key_tag = attr.ib(validator=attr.validators.instance_of(six.integer_types))
     signers_name = attr.ib(
         converter=DnsNameUncompressed.convert,
